@@ -6,6 +6,11 @@ EXTENDS Persist
 AddrSetsFull  == {{}, {"ip4"}, {"ip4", "ip6"}, {"dns4"}, {"ip4", "dns4"}}
 AddrSetsSmall == {{}, {"ip4", "ip6"}, {"ip4", "dns4"}}
 AddrSetsWide  == {{}, {"ip4"}, {"ip4", "ip4b", "ip6"}, {"dns4", "dns6"}, {"ip4", "dns4", "dns6"}}
+EmptyInit  == {{}}
+AllInits   == SUBSET (0..MAXIDX)
+\* two-digit indices: full runs around N = 10..12, gaps in front of a two-digit folder, two-digit only
+WideInits  == {{}, 0..8, 0..9, 0..10, 0..11, 0..12, {0, 1, 10}, {0, 1, 10, 11}, {10}, {10, 11, 12},
+               (0..11) \ {2}, (0..12) \ {10}, (0..9) \cup {11}, 1..11}
 PriosOne   == {1}
 PriosFull  == {-1, 0, 1}
 PriosSmall == {-1, 1}
